@@ -196,6 +196,33 @@ def run(chk, facts):
                f"class members are sorted by `{key}`: not a (position, unique index) key, ties are emitted in hash order", loc)
     except AnchorError as e:
         chk.anchor_fail("R-C12-6", e)
+    # ---------------- R-C12-7 ----------------
+    # `Class.fields` / `Class.functions` are hash sets of structs whose derived equality compares every member, but they are *looked
+    # up by name* (GetField::field, GetFun::fun: `iter().find(|f| f.name == name)`). That lookup is deterministic only while a name
+    # occurs once, and the one place that merges two such sets - Class::inherit - keeps it so by dropping inherited members whose
+    # *name* the class already has. An equality-based test (`contains`, set difference) lets `Base.label: Int` and
+    # `Derived.label: Str` coexist, and which one `d.label` finds depends on the hash seed.
+    chk.rule("R-C12-7", "Class::inherit filters inherited fields and functions by name against the class's own (not by struct equality)")
+    try:
+        inh = syn.one_fn("inherit", mod="check::context::clss", impl_of="Class")
+        loc = facts.loc_of(inh)
+        for setname, proj in (("fields", r"\.name"), ("functions", r"\.name(\.name)?")):
+            flt = [n for n in walk(inh["body"]) if n.get("k") == "mcall" and n["m"] in ("filter", "filter_map") and f"other.{setname}" in src(n["recv"]).replace(" ", "")]
+            ok = False
+            how = "no filter on the inherited members"
+            for f_ in flt:
+                cl = strip(f_["args"][0])
+                b_ = src(strip(cl["body"]), -20).replace(" ", "") if cl.get("k") == "closure" else ""
+                by_name = re.search(r"self\." + setname + r"\.iter\(\)\.(all|any)\(\|(\w+)\|\(?\(?\2" + proj + r"\)?(!=|==)\(?(\w+)" + proj + r"\)?\)?\)", b_)
+                if by_name and ".contains(" not in b_ and ((by_name.group(1) == "all" and "!=" in by_name.group(0)) or (by_name.group(1) == "any" and b_.startswith("!"))):
+                    ok = True
+                else:
+                    how = f"the filter is `{b_[:80]}`"
+            chk.ob("R-C12-7", f"inherit:{setname}:by-name", ok, f"inherited {setname} are dropped when the class has a member of the same name" if ok else
+                   f"Class::inherit no longer excludes inherited {setname} by *name* ({how}): two members of one name can coexist in the set, and the by-name lookup "
+                   "returns whichever the hash order yields first", loc)
+    except AnchorError as e:
+        chk.anchor_fail("R-C12-7", e)
     chk.assume("third-party crates (itertools sorted/unique, glob, python_parser) are deterministic")
     chk.notes.append(f"C12: {n_sources} hash iterations followed to {len(cnt)} order-sensitive consumers on MIR.")
 
